@@ -40,12 +40,14 @@ Section Cutoff.
   Definition mju_clip (x lo hi : S) : S := if sltb x lo then lo else if sltb hi x then hi else x.
   Definition mju_min (a b : S) : S := if sleb a b then a else b.
   (* engine_sensor.c apply_cutoff, one datum of sensor i at its stage:
-       if (cutoff > 0) { if (type == mjSENS_GEOMFROMTO) continue;   // (also skipped: CONTACT, plugins)
+       if (cutoff > 0) { if (type == mjSENS_CONTACT || type == mjSENS_GEOMFROMTO) continue;
          if (datatype == mjDATATYPE_REAL) x = mju_clip(x, -cutoff, cutoff);
-         else if (datatype == mjDATATYPE_POSITIVE) x = mju_min(cutoff, x); } *)
+         else if (datatype == mjDATATYPE_POSITIVE) x = mju_min(cutoff, x); }
+     (the MuJoCo 3.13 binary is checked against this rule on every run by bin/props/C07.py: contact
+     sensors (type 42) and fromto sensors (type 41) ignore their cutoff) *)
   Definition mj_cutoff (stype dtype : Z) (c x : S) : S :=
     if sgtb c (sofZ 0) then
-      if Z.eqb stype 41 then x
+      if (Z.eqb stype 41) || (Z.eqb stype 42) then x
       else if Z.eqb dtype 0 then mju_clip x (sneg c) c
       else if Z.eqb dtype 1 then mju_min c x
       else x
